@@ -2,7 +2,9 @@ SPEC = {
     "id": "C08",
     "drivers": [{"pkg": "internal/corerad", "test": "TestVerifC08", "newgo": True, "timeout": 1500},
                 # real parallelism: send workers against the scheduler's stop (and the other side-by-side parties)
-                {"pkg": "internal/corerad", "test": "TestVerifParallel", "newgo": True, "timeout": 600, "arch386": [], "env": {"VERIF_PAR": "workers"}}],
+                {"pkg": "internal/corerad", "test": "TestVerifParallel", "newgo": True, "timeout": 600, "arch386": [], "env": {"VERIF_PAR": "workers"}},
+        # the daemon end to end: the real main() in a child process, private network namespace, veth pair
+        {"pkg": "cmd/corerad", "test": "TestVerifE2E", "timeout": 300, "arch386": []}],
     "rule": "runs of the real Advertiser.Run under testing/synctest with Conn.WriteTo gated per call: stop instants {idle, unicast "
             "answer pending in its random delay, multicast pending in its 3 s delay, cancel exactly when the answer is due, "
             "solicitation in the same instant as the cancel, 1..3 workers blocked in WriteTo released after/at/before the cancel in "
